@@ -4,6 +4,7 @@ import (
 	"verif/harness/checks/c01"
 	"verif/harness/checks/c02"
 	"verif/harness/checks/c03"
+	"verif/harness/checks/c04"
 	"verif/harness/checks/c09"
 	"verif/harness/checks/c12"
 )
@@ -12,6 +13,7 @@ func init() {
 	register("C01", "exploration", c01.Run, c01.Replay)
 	register("C02", "exploration", c02.Run, c02.Replay)
 	register("C03", "exploration", c03.Run, c03.Replay)
+	register("C04", "fault_enumeration", c04.Run, c04.Replay)
 	register("C09", "exploration", c09.Run, c09.Replay)
 	register("C12", "exploration", c12.Run, c12.Replay)
 }
